@@ -90,6 +90,10 @@ type world struct {
 	snaps    []jar
 	snapBorn []map[string]int64 // per snapshot: cookie name -> birth time of the value held then
 	refreshByRT map[string]tokenAnswer // family sched: the provider's answer per refresh token (requests run concurrently)
+	maxAgeOf    map[string]int64       // cookie value -> Max-Age (seconds) it was set with: the browser drops it afterwards
+	pkceLax          bool   // the provider does not enforce PKCE itself
+	lastVerifier     string // code_verifier of the most recent token request
+	lastVerifierSeen bool
 	// reference bookkeeping (oracles)
 	lastInit   map[int]*initRec      // browser -> most recent initiation
 	allInits   map[int][]*initRec
@@ -116,7 +120,9 @@ type world struct {
 var rawURIs = []string{"/x", "/a/b?c=d&e=f", "/", "//evil.test/p", "/\\evil.test/p", "/%2Fevil.test", "/.//evil.test", "/x/../../evil.test", "/p?next=http://evil.test/", "/@evil.test", "/deep/path/with/segments?q=1",
 	"/./%5Cevil.test/", "/a/../%5Cevil.test/x", "/%09/evil.test/", "/./%2Fevil.test/", "/a/%2E%2E/%2Fevil.test", "/%5C%5Cevil.test", "/x/..%2F..%2F%5Cevil.test",
 	// raw backslashes and dot segments: what the redirect helper's path cleaning may turn into a leading "/\" or "//"
-	"/./\\evil.test/p", "/x/../\\evil.test", "/a/b/../../\\evil.test/?q=1", "/.//\\evil.test", "/./\\/evil.test", "/x/..\\evil.test", "/..\\..\\evil.test", "/.\\evil.test"}
+	"/./\\evil.test/p", "/x/../\\evil.test", "/a/b/../../\\evil.test/?q=1", "/.//\\evil.test", "/./\\/evil.test", "/x/..\\evil.test", "/..\\..\\evil.test", "/.\\evil.test",
+	// scheme-relative with a percent-encoded pseudo-authority (net/url refuses to parse such a host; browsers decode it)
+	"//evil%2etest/account", "//%65vil.test/x?y=1", "//evil.test%2f@app.test/", "//evil.test:%38%30/", "/%2f%2fevil.test", "///evil.test/x", "//evil.test%00/"}
 
 func (w *world) sym(v string) string {
 	if v == "" {
@@ -169,14 +175,18 @@ func newWorld(sc int, rng interface{ Intn(int) int }) *world {
 	}
 	if T.prop == "C10" && rng.Intn(2) == 0 {
 		w.tmpls = []tmplCfg{{name: "X-Tenant-ID", text: "{{.Claims.org.id}}"}, {name: "x-lower-name", text: "{{index .Claims.arr 5}}"}, {name: "X-USER-Sub", text: "{{.Claims.sub}}"}}
-		if rng.Intn(2) == 0 {
+		if rng.Intn(3) == 0 { // a template that does not parse, before and between ones that do
+			w.tmpls = []tmplCfg{{name: "X-Tpl-Email", text: "{{.Claims.email}}"}, {name: "X-Tpl-Broken", text: "{{if .Claims.admin}}admin{{end}"}, {name: "X-Tenant-ID", text: "{{.Claims.org.id}}"}, {name: "X-Tpl-Sub", text: "{{.Claims.sub}}"}}
+		} else if rng.Intn(2) == 0 {
 			// templates that fail only after having produced output (for all or for some claim shapes), followed by ones that succeed
 			w.tmpls = []tmplCfg{{name: "X-Tpl-Partial", text: "{{.Claims.email}}|{{index .Claims.arr 5}}"}, {name: "X-Tpl-Email", text: "{{.Claims.email}}"},
 				{name: "X-Tpl-Group", text: "first={{.Claims.sub}};{{index .Claims.groups 0}}"}, {name: "X-Tpl-Sub", text: "{{.Claims.sub}}"}}
 		}
 	}
 	for i := range w.tmpls {
-		w.tmpls[i].t = template.Must(template.New(w.tmpls[i].name).Parse(w.tmpls[i].text))
+		// (a template the administrator got wrong does not parse: such a header is never rendered — and, being a configured
+		// templated header, a client-supplied value under its name must not reach the downstream handler either)
+		w.tmpls[i].t, _ = template.New(w.tmpls[i].name).Parse(w.tmpls[i].text)
 	}
 	w.logout = "/cb/logout"
 	w.rateLimit = 1000000
@@ -246,7 +256,8 @@ func (w *world) exchange1(form url.Values) tokenAnswer {
 	if c == nil || c.used || (c.redirect != "" && form.Get("redirect_uri") != c.redirect) { // redirect "": a direct code whose sender registered whatever URI the deployment will present
 		return tokenAnswer{kind: "4xx", desc: "bad code"}
 	}
-	if c.challenge != "" && s256(form.Get("code_verifier")) != c.challenge {
+	w.lastVerifier, w.lastVerifierSeen = form.Get("code_verifier"), true
+	if !w.pkceLax && c.challenge != "" && s256(form.Get("code_verifier")) != c.challenge { // (a lax provider accepts a challenge at /auth and never asks for the verifier)
 		return tokenAnswer{kind: "4xx", desc: "pkce"}
 	}
 	c.used = true
@@ -379,7 +390,9 @@ func (w *world) execTable(t *hTok, refresh string) []interface{} {
 	}{t.raw, t.raw, refresh, seen}
 	for _, tc := range w.tmpls {
 		var buf bytes.Buffer
-		if err := tc.t.Execute(&buf, data); err != nil {
+		if tc.t == nil {
+			out = append(out, nil)
+		} else if err := tc.t.Execute(&buf, data); err != nil {
 			out = append(out, nil)
 		} else {
 			out = append(out, w.render(buf.String()))
@@ -483,6 +496,20 @@ func (w *world) prep(rs *reqSpec) (*http.Request, [][]string) {
 		rs.method = "GET"
 	}
 	j := w.jars[w.b]
+	// browser semantics: a cookie is dropped once the Max-Age it was set with has run out (the model is told; the session
+	// bookkeeping of the oracles is NOT: a session the deployment promised for 24 hours is still expected to work)
+	for n, v := range j {
+		k := fmt.Sprintf("%d/%s", w.b, n)
+		if ma, ok := w.maxAgeOf[v]; ok && ma > 0 {
+			if born, ok := w.born[k]; ok && born >= 0 && time.Now().Unix()-born > ma {
+				if sn := shortName(n); sn != "" {
+					delete(j, n)
+					w.rec(M{"op": "jar", "edit": "drop", "name": sn})
+					T.stat("handler.cookies-expired-in-browser")
+				}
+			}
+		}
+	}
 	// cookies older than securecookie's 30-day limit are undecodable: tell the model (abstraction of the timestamp check)
 	for n := range j {
 		k := fmt.Sprintf("%d/%s", w.b, n)
@@ -587,6 +614,12 @@ func (w *world) observe(rs reqSpec, r *http.Request, clientHdrs [][]string, rec 
 		resp := http.Response{Header: rec.Header()}
 		for _, c := range resp.Cookies() {
 			w.born[fmt.Sprintf("%d/%s", w.b, c.Name)] = time.Now().Unix()
+			if c.MaxAge > 0 {
+				if w.maxAgeOf == nil {
+					w.maxAgeOf = map[string]int64{}
+				}
+				w.maxAgeOf[c.Value] = int64(c.MaxAge)
+			}
 		}
 	}
 
@@ -968,7 +1001,7 @@ func (w *world) oracles(rs reqSpec, path string, query url.Values, obs M, rec *h
 						Claims                             map[string]interface{}
 					}{tok.raw, tok.raw, rt, seen}
 					var buf bytes.Buffer
-					if tc.t.Execute(&buf, data) == nil && buf.String() == vals[0] {
+					if tc.t != nil && tc.t.Execute(&buf, data) == nil && buf.String() == vals[0] {
 						okv = true
 					}
 				}
@@ -986,7 +1019,10 @@ func (w *world) oracles(rs reqSpec, path string, query url.Values, obs M, rec *h
 		if strings.HasPrefix(w.postLogout, "http") {
 			allowed = append(allowed, browserOrigin(w.postLogout, reqOrigin))
 		}
-		if !inList(allowed, lo) {
+		// (the request's own origin is what its Host / X-Forwarded-* headers say; when those are not a well-formed scheme and
+		// host — a broken proxy chain — there is no origin to resolve against and the statement is not evaluated)
+		wellFormed := regexp.MustCompile(`^https?://[A-Za-z0-9.-]+(:[0-9]+)?$`).MatchString(reqOrigin)
+		if wellFormed && !inList(allowed, lo) {
 			T.oracle("C15", "redirect leaves the application's origin", M{"location": trunc(loc, 200), "resolved_origin": lo, "request_origin": reqOrigin, "note": rs.note}, w.replay())
 		}
 		if obs["class"] == "redirectLocal" && !(strings.HasPrefix(loc, "/") && !strings.HasPrefix(loc, "//") && !strings.HasPrefix(loc, "/\\")) {
